@@ -157,6 +157,7 @@ type aggGoal struct {
 	Fn        string
 	Pos       string
 	Second    string
+	MaxSecs   float64
 }
 
 // aggregate groups per-path goal instances by obligation name.
@@ -177,6 +178,9 @@ func aggregate(outs []*goalOutcome) []*aggGoal {
 		}
 		a.Instances++
 		a.Seconds += o.Res.Seconds
+		if o.Res.Seconds > a.MaxSecs {
+			a.MaxSecs = o.Res.Seconds
+		}
 		if o.Goal.Expect == "sat" {
 			if o.OK {
 				a.OK = true
@@ -221,7 +225,6 @@ func countOK(as []*aggGoal) int {
 }
 
 var _ = ssa.NaiveForm
-
 
 func cmdModset(args []string) int {
 	fs := flag.NewFlagSet("modset", flag.ExitOnError)
